@@ -79,8 +79,8 @@ def run(ck: Check) -> None:
         keys = list(c["env"]["signatures"])
         for cl in classes:
             ck.count("model-branch:" + cl)
-        counted_model = {proto.enc(k) for k, cl in zip(keys, classes) if cl == "counts"}
-        counted_oracle = {proto.enc(k) for k in envgen.counting_keys(c["env"], c["auth"], gpg)}
+        counted_model = {proto.label(k) for k, cl in zip(keys, classes) if cl == "counts"}
+        counted_oracle = {proto.label(k) for k in envgen.counting_keys(c["env"], c["auth"], gpg)}
         if not ans.startswith("C ") or len(classes) != len(keys) or counted_model != counted_oracle or "error" in classes:
             ck.mismatch_total += 1
             kk = "entry-classes:" + ("gpg" if gpg else "raw")
